@@ -461,6 +461,71 @@ def known_signature(c, ops, pred):
     return None
 
 
+def header_class_sweep(chk):
+    """Last clause of the statement, evaluated directly for EVERY header class nibabel offers with the generic
+    ArrayProxy (the operation-sequence model above runs on NIfTI-1 headers): a proxy built from a header object -
+    and an image created from that proxy and header - returns the same data whatever is later done to that header
+    object or to the image's header (scale factors, shape, dtype).  Found S-C13a (Spm99AnalyzeHeader hands out its
+    slope as a view of its own memory)."""
+    import nibabel as nib
+    from nibabel.arrayproxy import ArrayProxy
+    classes = [(nib.Nifti1Image, 'Nifti1Header'), (nib.Nifti1Pair, 'Nifti1PairHeader'), (nib.Nifti2Image, 'Nifti2Header'),
+               (nib.Nifti2Pair, 'Nifti2PairHeader'), (nib.AnalyzeImage, 'AnalyzeHeader'),
+               (nib.Spm99AnalyzeImage, 'Spm99AnalyzeHeader'), (nib.Spm2AnalyzeImage, 'Spm2AnalyzeHeader')]
+    n = 0
+    edits = [('slope', lambda h: h.set_slope_inter(7.0)), ('slope_none', lambda h: h.set_slope_inter(None)),
+             ('slope_inter', lambda h: h.set_slope_inter(3.0, 5.0)), ('shape', lambda h: h.set_data_shape((4, 3, 2))),
+             ('dtype', lambda h: h.set_data_dtype(np.float32)),
+             ('raw_field', lambda h: h.__setitem__('scl_slope', 9.0))]
+    for klass, hname in classes:
+        for dt in ('i2', 'f4'):
+            for slope in (None, 2.0, 0.5):
+                for mm in (True, False):
+                    h0 = klass.header_class()
+                    h0.set_data_dtype(NPDT[dt])
+                    h0.set_data_shape((2, 3, 4))
+                    if slope is not None:
+                        try:
+                            h0.set_slope_inter(slope)
+                        except Exception:
+                            continue            # this class stores no scale factor
+                    fn = os.path.join(chk.workdir, f'hc_{hname}_{dt}.img')
+                    raw = (np.arange(24) + 1).astype(NPDT[dt])
+                    with open(fn, 'wb') as f:
+                        f.write(b'\0' * int(h0.get_data_offset()))
+                        f.write(raw.tobytes())
+                    for target in ('original_header', 'image_header'):
+                        for ename, edit in edits:
+                            h = h0.copy()
+                            prox = ArrayProxy(fn, h, mmap=mm)
+                            img = klass(prox, np.eye(4), header=h)
+                            before = np.array(np.asarray(prox))
+                            sl_before = np.array(prox[1])
+                            try:
+                                edit(h if target == 'original_header' else img.header)
+                            except Exception:
+                                continue        # the class refuses this edit: nothing to observe
+                            n += 1
+                            after = np.asarray(prox)
+                            fd = img.get_fdata(caching='unchanged')
+                            bad = None
+                            if after.shape != before.shape or after.dtype != before.dtype or \
+                                    not np.array_equal(after, before):
+                                bad = f'np.asarray(proxy) changed: element 1 {before.ravel()[1]!r} -> {after.ravel()[1]!r}'
+                            elif not np.array_equal(np.asarray(prox[1]), sl_before):
+                                bad = 'proxy[1] changed'
+                            elif fd.shape != before.shape or not np.array_equal(fd, before.astype(np.float64)):
+                                bad = 'get_fdata(caching="unchanged") no longer equals the proxy data read before the edit'
+                            if bad:
+                                chk.violation('property_violation',
+                                              case={'header_class': hname, 'dtype': dt, 'slope': slope, 'mmap': mm,
+                                                    'edited': target, 'edit': ename},
+                                              predicate='what a proxy returns is unaffected by later edits to the image '
+                                                        'header or to the header object the image was created from: ' + bad)
+                                return n
+    return n
+
+
 def run(chk: Check):
     ensure_impl_path()
     chk.rule = ('exhaustive: every operation sequence of depth D over the 14-op alphabet ' + ' '.join(ALPHA) +
@@ -486,6 +551,8 @@ def run(chk: Check):
         return
     rng = chk.rng
     thorough = chk.tier == 'thorough'
+    # ---- last clause over every header class (direct predicate)
+    chk.extra['header_class_sweep_cases'] = header_class_sweep(chk)
     # ---- configurations
     arr_cfgs = [A(dt, order=o) for dt in ('i2', 'f4', 'f8') for o in ('C', 'F')]
     prox_cfgs = [P(dt, scl, mm, ctor=ct) for dt in ('i2', 'f4', 'f8') for scl in (None, (2, 1)) for mm in (True, False)
@@ -727,6 +794,14 @@ def vm_pairs(cfgs, plan, mod, n_exh):
 def replay(chk, obj):
     ensure_impl_path()
     case = obj.get('case')
+    if isinstance(case, dict) and 'header_class' in case:
+        before = len(chk.violations)
+        header_class_sweep(chk)                 # deterministic: stops at the first failing case
+        bad = len(chk.violations) > before
+        print('header-class sweep:', 'the property fails (see the new replay file)' if bad else 'holds on every case')
+        import shutil
+        shutil.rmtree(chk.workdir, ignore_errors=True)
+        return 1 if bad else 0
     if not isinstance(case, dict) or 'ops' not in case:
         print('nothing to replay:', obj.get('predicate'))
         return 1
